@@ -123,6 +123,30 @@ def handle (line : String) : String :=
       | some m => s!"returns marked={m.length}"
       | none => "never-returns"
     | none => "bad-op"
+  | ["scan", n] =>
+    match n.toNat? with
+    | some n => showO toString (scanRun scanCfg 0 (List.replicate n .includeFound))
+    | none => "bad-op"
+  | ["comments", n] =>
+    match n.toNat? with
+    | some n => showO toString (commentRun commentCfg 0 (List.replicate n .open_))
+    | none => "bad-op"
+  | ["pathentry", n] =>
+    match n.toNat? with
+    | some n => showO toString (pathEntryOut schemaFileCfg n)
+    | none => "bad-op"
+  | ["findschema", leaf, n] =>
+    match leaf.toNat?, n.toNat? with
+    | some l, some n => showO toString (findSchemaOut schemaFileCfg l n)
+    | _, _ => "bad-op"
+  | ["escape", len, sp] =>
+    match len.toNat?, sp.toNat? with
+    | some l, some q => showO toString (escapeOut escapeCfg l q)
+    | _, _ => "bad-op"
+  | ["pycall", nm, args] =>
+    match nm.toNat?, (args.splitOn ",").mapM (·.toNat?) with
+    | some nm, some as => showO toString (pyCallOut pyCallCfg nm as)
+    | _, _ => "bad-op"
   | ["renamesearch", n] =>
     match n.toNat? with
     | some n =>
